@@ -1165,6 +1165,15 @@ def check_c02(pid, tier, build, props):
         problems.append("correspondence implementation = Model/Pipe.v broken: %d of %d graphs differ, first: %r%s"
                         % (pr["mismatch_count"], pr["graphs"], pr["mismatches"][:1],
                            (" harness: %r" % pr["harness_errors"][:1]) if pr["harness_errors"] else ""))
+    from . import loopcalls
+    lt = loopcalls.tie(tier, common.seed())
+    loop_tie_ok = lt["mismatch_count"] == 0 and not lt["harness_errors"] and lt["agree"] > 0
+    if not loop_tie_ok:
+        # the line-by-line model of loop_restructure_helper (Model/LoopEdit.v) no longer computes what the
+        # implementation computes on direct calls: its theorems stop speaking about the code
+        problems.append("correspondence loop_restructure_helper = Model/LoopEdit.v broken: %d calls differ, first: %r%s"
+                        % (lt["mismatch_count"], lt["mismatches"][:1],
+                           (" harness: %r" % lt["harness_errors"][:1]) if lt["harness_errors"] else ""))
     b5 = None
     if tier == "thorough":
         from . import bounded5
@@ -1174,6 +1183,11 @@ def check_c02(pid, tier, build, props):
     coverage = {
         "bounded_theorem_5_blocks": b5 if b5 is not None else "thorough tier only (676 sharded coqc runs over all 443 400 graphs)",
         "pipeline_model": dict(piperun.summary(pr), holds=tie_ok),
+        "loop_helper_model": dict(lt, holds=loop_tie_ok,
+                                  role="direct calls of transformations.loop_restructure_helper on (graph, loop) "
+                                       "pairs - components of closed and of arbitrary graphs, some sets that are no "
+                                       "component - compared order-exactly (or by kind of exception) with "
+                                       "LoopEdit.loop_helper, which the path theorems for loop rotation speak about"),
         "evaluations": total,
         "distinct_nontrivial": total - sn["distribution"]["n"].get("1", 0),
         "rule": "closed CFGs with at most two distinct successors per block: ALL with <=4 blocks (3879)%s, shapes, "
